@@ -1,6 +1,6 @@
 import json, itertools, collections, sys, copy
 from multiprocessing import Pool
-sys.path.insert(0,'/repo')
+sys.path.insert(0, __import__("os").environ.get("SUT","/repo"))
 from simple_ddl_parser import DDLParser
 tables = {('s1','t'):"CREATE TABLE s1.t (a int, b varchar(5), c int);", ('s2','t'):"CREATE TABLE s2.t (a int, b varchar(5), c int);", (None,'t'):"CREATE TABLE t (a int, b varchar(5), c int);", ('S3','T'):'CREATE TABLE "S3"."T" (a int, b varchar(5), c int);', (None,'u'):"CREATE TABLE u (a int, b varchar(5), c int);"}
 def spell(name, how):
@@ -29,6 +29,33 @@ def case(args):
     others=[j for j in range(len(keys)) if j!=i and r[j]!=r0[j]]
     if others: return (args,st,'other tables changed '+str(others))
     if r[i]==r0[i]: return (args,st,'target unchanged')
+    import re as _re
+    nm=lambda x: _re.sub(r'[\[\]"`]','',x).lower()
+    t=r[i]; cols=t['columns']; names=[nm(c['name']) for c in cols]; al=t['alter']
+    def col(n): return next((c for c in cols if nm(c['name'])==n),None)
+    e=None
+    try:
+        if k=='add' and not (names==['a','b','c','d'] and al['columns'][-1]['name']=='d'): e='add effect'
+        if k=='drop' and names!=['a','c']: e='drop effect '+str(names)
+        if k=='rename' and not (names==['a','bb','c'] and al['renamed_columns'][-1]=={'from':spell('b',hc),'to':'bb'}): e='rename effect '+str(names)
+        if k in('modcol','mod','altcol') and not (names==['a','b','c'] and col('b')['size']==50): e='modify effect'
+        if k=='pk' and al['primary_keys'][-1]!={'constraint_name':None,'columns':['a']}: e='pk effect'
+        if k=='uq1' and not (al['uniques'][-1]['columns']==['b'] and col('b')['unique'] and not col('a')['unique']): e='uq1 effect'
+        if k=='uq2' and not (al['uniques'][-1]=={'constraint_name':'u1','columns':['a','b']} and not col('a')['unique'] and not col('b')['unique']): e='uq2 effect'
+        if k=='chk' and al['checks'][-1]!={'constraint_name':'c1','statement':'a > 0'}: e='chk effect '+json.dumps(al['checks'])
+        if k=='def' and not (str(col('a')['default'])=='0' and col('c')['default'] is None and al['defaults'][-1]['constraint_name']=='d1'): e='def effect'
+        if k=='def2' and not (str(col('a')['default'])=='0' and str(col('c')['default'])=='0' and col('b')['default'] is None): e='def2 effect'
+        if k=='fk':
+            ac=al['columns']
+            if not (len(ac)==2 and [x['name'] for x in ac]==['a','c'] and [x['references']['column'] for x in ac]==['x','y'] and all(x['constraint_name']=='fk1' and x['references']['table']=='o' and x['references']['schema']=='s9' for x in ac)): e='fk effect'
+        if k=='idx':
+            ix=t['index'][-1]
+            if not (ix['index_name']=='i1' and ix['unique'] is False and ix['columns']==['a','b'] and [d['order'] for d in ix['detailed_columns']]==['ASC','DESC']): e='idx effect '+json.dumps(ix)
+        if k=='uidx':
+            ix=t['index'][-1]
+            if not (ix['index_name']=='i2' and ix['unique'] is True and ix['columns']==['c']): e='uidx effect'
+    except Exception as ex: e='effect check crashed '+repr(ex)[:60]
+    if e: return (args,st,e)
     return None
 if __name__=="__main__":
     cases=[(tgt,k,hs,ht,hc) for tgt in tables for k in kinds for hs in ('asis','up','low','dq','br','bt') for ht in ('asis','up','low','dq','br','bt') for hc in (('asis','up','dq') if '{b}' in kinds[k] else ('asis',)) if not (tgt[0] is None and hs!='asis')]
